@@ -163,7 +163,13 @@ func genStopEvent(r *rand.Rand, tier string) Case {
 	ihb := t.InfoHash()
 	ih := fmt.Sprintf("%x", string(ihb[:]))
 	started := tr.wait(ih, func(a string, evs []string) bool { return len(evs) > 0 }, 15*time.Second)
-	time.Sleep(100 * time.Millisecond) // the announcer has taken the reply
+	// wait until the announcer has taken the reply (its status leaves Contacting), not for a fixed time
+	for dl := time.Now().Add(10 * time.Second); time.Now().Before(dl); time.Sleep(5 * time.Millisecond) {
+		trs := t.Trackers()
+		if len(trs) > 0 && (trs[0].Status == torrent.Working || trs[0].Status == torrent.NotWorking) {
+			break
+		}
+	}
 	_ = t.Stop()
 	deadline := time.Now().Add(10 * time.Second)
 	for time.Now().Before(deadline) && t.Stats().Status.String() != "Stopped" {
